@@ -6,7 +6,7 @@ def row(m):
     pid=m.group(1)
     try: d=json.load(open('/verif/evidence/%s.json'%pid))['coverage']
     except Exception: return m.group(0)
-    return '| %s | %s | %s | %s |%s' % (pid, d['obligations'], d['obligation_groups'], d['functions_under_contract'], m.group(5))
+    return '| %s | %s | %s | %s |%s' % (pid, d['obligations'], d['obligation_groups'], (len(d['functions_under_contract']) if isinstance(d['functions_under_contract'],list) else d['functions_under_contract']), m.group(5))
 s2=re.sub(r'^\| (C\d\d) \| (\d+) \| (\d+) \| (\d+) \|(.*)$', row, s, flags=re.M)
 open('/verif/DESIGN.md','w').write(s2)
 print('rows changed:', sum(1 for a,b in zip(s.splitlines(),s2.splitlines()) if a!=b))
